@@ -206,9 +206,13 @@ impl Caret {
     fn check_scrolling_on_caret_up(&mut self, buf: &mut Buffer, current_layer: usize, force: bool) {
         if buf.needs_scrolling() || force {
             let last = buf.get_first_editable_line();
-            while self.pos.y < last {
-                buf.scroll_down(current_layer);
-                self.pos.y += 1;
+            if self.pos.y < last {
+                // scrolling down more often than the region has rows changes nothing
+                let num = min(i64::from(last) - i64::from(self.pos.y), i64::from(buf.max_effective_scrolls(current_layer)));
+                for _ in 0..num {
+                    buf.scroll_down(current_layer);
+                }
+                self.pos.y = last;
             }
         }
     }
